@@ -27,7 +27,7 @@ package ast
 //@ typeinv (n *ReturnStatement) = wfx(n.ReturnValue)
 //@ typeinv (n *ExpressionStatement) = wfx(n.Expression)
 //@ typeinv (n *ArrayLiteral) = wfxs(n.Elements)
-//@ typeinv (n *HashLiteral) = n.Pairs != nil && wfxs(n.Order) && (forall k Expression :: has(n.Pairs, k) ==> nnx(k) && wfx(n.Pairs[k]))
+//@ typeinv (n *HashLiteral) = n.Pairs != nil && (forall i int :: 0 <= i && i < len(n.Order) ==> nnx(n.Order[i]) && has(n.Pairs, n.Order[i])) && (forall k Expression :: has(n.Pairs, k) ==> nnx(k) && wfx(n.Pairs[k]))
 // literal template text is the template author's markup (definition of trusted text, see plush contracts)
 //@ typeinv (n *HTMLLiteral) = evalphase() ==> trusted(n.Value)
 //@ typeinv (n *BlockStatement) = forall i int :: 0 <= i && i < len(n.Statements) ==> nnx(n.Statements[i])
